@@ -28,6 +28,9 @@ control (fall through / which jump), or the error kind, or a VM fault.
   block entered at its start: same final state and exit (fall through / which jump) or same error.
 * `C05_pass_label_split` / `C05_optimize_label_split`: the code before and after a label is optimized
   independently and the label stays between the two images (no jump lands inside a window).
+* `C05_without_imm_sound`, `C05_expand_immediates_sound`, `C05_expand_immediates_labels`: the pass that
+  turns an immediate whose constant has no 16-bit pool index back into push + plain instruction is
+  outcome-preserving for every pool.
 * `C05_optimize_sound_partial`: the claim made for the whole optimizer = all of the above.
   -- OPEN: `C05_optimize_sound` (stuttering simulation between a whole program and its optimized image:
   -- trace equivalence through jumps to labels, calls and returns).  Reason: needs the M4 VM model of
@@ -93,8 +96,8 @@ theorem C05_rule_sound_pushnil_pop (P : Prims H) (n : Nat) (hn : n ≠ 0) (s : S
     | succ k ih => intro st; simp only [pushN] at ih ⊢; rw [ih]
   simp [exec, hp]
 
-/-- the `n = 0` case is not a rewrite at all: the optimizer computes `0u16 - 1` -/
-example : peephole2 (.pushNil 0) .pop = .crash := by decide
+/-- `PushNil(0); Pop` is left alone by the 2-window (guard `n >= 1`) -/
+example : peephole2 (.pushNil 0) .pop = .noMatch := by decide
 
 theorem C05_rule_sound_push_pop (P : Prims H) (i : Instr)
     (hi : (∃ b, i = .pushBool b) ∨ (∃ f, i = .pushFloat f) ∨ (∃ n, i = .pushInt n) ∨ (∃ x, i = .pushString x))
@@ -366,14 +369,83 @@ def WinOk (s : St H) (i1 i2 : Instr) : Prop :=
   (i1 = .duplicate → s.stack ≠ []) ∧
   (∀ x y, i1 = .loadOffset x → secondArgIsTop i2 = false → secondOffset i2 = some y → NotTopSlot s y)
 
+theorem loadOffsetOf_some (i : Instr) (o : Int) (h : loadOffsetOf i = some o) : i = .loadOffset o := by
+  cases i <;> simp [loadOffsetOf] at h; subst h; rfl
+theorem storeOffsetOf_some (i : Instr) (o : Int) (h : storeOffsetOf i = some o) : i = .storeOffset o := by
+  cases i <;> simp [storeOffsetOf] at h; subst h; rfl
+theorem pushIntOf_some (i : Instr) (n : Int) (h : pushIntOf i = some n) : i = .pushInt n := by
+  cases i <;> simp [pushIntOf] at h; subst h; rfl
+theorem pushFloatOf_some (i : Instr) (f : String) (h : pushFloatOf i = some f) : i = .pushFloat f := by
+  cases i <;> simp [pushFloatOf] at h; subst h; rfl
+
+theorem guarded_sound (P : Prims H) (i1 i2 : Instr) (out : List Instr)
+    (h : peephole2Guarded i1 i2 = .replace out) (s : St H) (hok : WinOk s i1 i2) :
+    run P [i1, i2] s = run P out s := by
+  unfold peephole2Guarded at h
+  cases hl : loadOffsetOf i1 with
+  | some off =>
+    have := loadOffsetOf_some i1 off hl; subst this
+    simp only [hl] at h
+    by_cases h1 : secondArgIsTop i2 = true
+    · by_cases he : offsetIsEncodable off = true
+      · simp only [h1, he, Bool.and_self, if_true] at h
+        cases h; exact C05_rule_sound_load_second P off i2 h1 s
+      · simp [he] at h
+    · have h1' : secondArgIsTop i2 = false := by simpa using h1
+      simp only [h1', Bool.false_and] at h
+      by_cases h2 : (firstArgIsTopAndSecondArgIsOffsetOrImm i2 && offsetIsEncodable off) = true
+      · simp only [h2, if_true] at h
+        simp at h
+        cases h
+        simp only [Bool.and_eq_true] at h2
+        exact C05_rule_sound_load_first P off i2 h2.1 h1' s (fun y hy => hok.2 off y rfl h1' hy)
+      · simp [h2] at h
+  | none =>
+    simp only [hl] at h
+    cases hs : storeOffsetOf i2 with
+    | some off =>
+      have := storeOffsetOf_some i2 off hs; subst this
+      simp only [hs] at h
+      by_cases h1 : (destIsTop i1 && offsetIsEncodable off) = true
+      · simp only [h1, if_true] at h
+        cases h
+        simp only [Bool.and_eq_true] at h1
+        exact C05_rule_sound_dest_store P i1 off h1.1 s
+      · simp [h1] at h
+    | none =>
+      simp only [hs] at h
+      cases hi : pushIntOf i1 with
+      | some n =>
+        have := pushIntOf_some i1 n hi; subst this
+        simp only [hi] at h
+        by_cases h1 : (secondArgIsTop i2 && canReplaceSecondArgWithImmInt i2) = true
+        · simp only [h1, if_true] at h
+          cases h
+          simp only [Bool.and_eq_true] at h1
+          exact C05_rule_sound_imm_int P n i2 h1.1 h1.2 s
+        · simp [h1] at h
+      | none =>
+        simp only [hi] at h
+        cases hf : pushFloatOf i1 with
+        | some f =>
+          have := pushFloatOf_some i1 f hf; subst this
+          simp only [hf] at h
+          by_cases h1 : (secondArgIsTop i2 && canReplaceSecondArgWithImmFloat i2) = true
+          · simp only [h1, if_true] at h
+            cases h
+            simp only [Bool.and_eq_true] at h1
+            exact C05_rule_sound_imm_float P f i2 h1.1 h1.2 s
+          · simp [h1] at h
+        | none => simp [hf] at h
+
 theorem C05_peephole2_sound (P : Prims H) (i1 i2 : Instr) (out : List Instr)
     (h : peephole2 i1 i2 = .replace out) (s : St H) (hok : WinOk s i1 i2) :
     run P [i1, i2] s = run P out s := by
   unfold peephole2 at h
   split at h
   · split at h
+    · cases h; exact C05_rule_sound_pushnil_pop P _ (by omega) s
     · cases h
-    · cases h; exact C05_rule_sound_pushnil_pop P _ (by assumption) s
   · cases h; exact C05_rule_sound_push_pop P _ (Or.inl ⟨_, rfl⟩) s
   · cases h; exact C05_rule_sound_push_pop P _ (Or.inr (Or.inl ⟨_, rfl⟩)) s
   · cases h; exact C05_rule_sound_push_pop P _ (Or.inr (Or.inr (Or.inl ⟨_, rfl⟩))) s
@@ -385,38 +457,7 @@ theorem C05_peephole2_sound (P : Prims H) (i1 i2 : Instr) (out : List Instr)
   · cases h; exact C05_rule_sound_false_jumpif P _ s
   · cases h; exact C05_rule_sound_bool_flip P _ s
   · cases h; exact C05_rule_sound_pushint_store P _ _ s
-  · unfold peephole2Guarded at h
-    split at h
-    · by_cases h1 : secondArgIsTop i2 = true
-      · simp only [h1, if_true] at h
-        cases h; exact C05_rule_sound_load_second P _ i2 h1 s
-      · simp only [h1] at h
-        by_cases h2 : firstArgIsTopAndSecondArgIsOffsetOrImm i2 = true
-        · simp only [h2, if_true] at h
-          cases h
-          have h1' : secondArgIsTop i2 = false := by simpa using h1
-          exact C05_rule_sound_load_first P _ i2 h2 h1' s (fun y hy => hok.2 _ y rfl h1' hy)
-        · simp only [h2] at h
-          cases i2 <;> simp at h
-    · split at h
-      · by_cases h1 : destIsTop i1 = true
-        · simp only [h1, if_true] at h
-          cases h; exact C05_rule_sound_dest_store P i1 _ h1 s
-        · simp [h1] at h
-      · split at h
-        · by_cases h1 : (secondArgIsTop i2 && canReplaceSecondArgWithImmInt i2) = true
-          · simp only [h1, if_true] at h
-            cases h
-            simp only [Bool.and_eq_true] at h1
-            exact C05_rule_sound_imm_int P _ i2 h1.1 h1.2 s
-          · simp [h1] at h
-        · by_cases h1 : (secondArgIsTop i2 && canReplaceSecondArgWithImmFloat i2) = true
-          · simp only [h1, if_true] at h
-            cases h
-            simp only [Bool.and_eq_true] at h1
-            exact C05_rule_sound_imm_float P _ i2 h1.1 h1.2 s
-          · simp [h1] at h
-        · cases h
+  · exact guarded_sound P _ _ out h s hok
 
 theorem C05_peephole3_sound (P : Prims H) (env : FoldEnv) (hag : EnvAgrees P env) (hrt : RoundTrip P)
     (i1 i2 i3 : Instr) (out : List Instr) (h : peephole3 env i1 i2 i3 = .replace out) (s : St H) :
@@ -474,7 +515,6 @@ theorem matchAt_hit (env : FoldEnv) (ls : List Line) (out : List Instr) (k : Nat
       | .instr i2 a2 :: .instr i3 a3 :: rest3, h3 =>
         exact ⟨[(i1, a1), (i2, a2), (i3, a3)], by simp, rfl, by simp [linesOf], .three _ _ _ _ h3, rfl⟩
     · cases h
-    · cases h
     · -- 2-window
       split at h
       · rename_i out2 h2
@@ -483,12 +523,10 @@ theorem matchAt_hit (env : FoldEnv) (ls : List Line) (out : List Instr) (k : Nat
         | .instr i2 a2 :: rest2, h2 =>
           exact ⟨[(i1, a1), (i2, a2)], by simp, rfl, by simp [linesOf], .two _ _ _ h2, rfl⟩
       · cases h
-      · cases h
       · split at h
         · rename_i out1 h1
           cases h
           exact ⟨[(i1, a1)], by simp, rfl, by simp [linesOf], .one _ _ h1, rfl⟩
-        · cases h
         · cases h
         · cases h
 
@@ -547,9 +585,7 @@ theorem passLoop_rel (env : FoldEnv) : ∀ (fuel : Nat) (ls r : List Line), ls.l
           have := PassRel.rewrite w out (annOf (l :: rest)) _ _ hf ha hrel
           rw [← hsplit] at this
           exact this
-        | crash => rw [htl] at h; simp [PassRes.map] at h
         | needFold => rw [htl] at h; simp [PassRes.map] at h
-      · cases h
       · cases h
       · cases htl : passLoop env f rest with
         | ok tl =>
@@ -557,7 +593,6 @@ theorem passLoop_rel (env : FoldEnv) : ∀ (fuel : Nat) (ls r : List Line), ls.l
           simp only [PassRes.map] at h
           cases h
           exact .keep l rest tl (ih _ _ (by simpa using hl) htl)
-        | crash => rw [htl] at h; simp [PassRes.map] at h
         | needFold => rw [htl] at h; simp [PassRes.map] at h
 
 /-- **Structure of a pass.** -/
@@ -595,7 +630,6 @@ theorem optimizeLoop_chain (env : FoldEnv) : ∀ (fuel : Nat) (ls r : List Line)
       · simp only [hlt, if_false] at h
         cases h
         exact .step _ _ _ hrel (.refl _)
-    | crash => rw [hp] at h; cases h
     | needFold => rw [hp] at h; cases h
 
 theorem labelsOf_chain (env : FoldEnv) (ls r : List Line) (h : PassChain env ls r) :
@@ -805,6 +839,76 @@ theorem C05_optimize_label_split (env : FoldEnv) (a b r : List Line) (l : String
     (h : optimize env (a ++ Line.label l :: b) = .ok r) :
     ∃ a' b', r = a' ++ Line.label l :: b' ∧ PassChain env a a' ∧ PassChain env b b' :=
   chain_label_split env l _ r (optimizeLoop_chain env _ _ r h) a b rfl
+
+/-! ## `expand_immediates` -/
+
+/-- `without_imm` is the inverse of the immediate fusion: the pair it returns behaves as the instruction -/
+theorem C05_without_imm_sound (P : Prims H) (i push plain : Instr) (h : withoutImm i = some (push, plain))
+    (s : St H) : run P [push, plain] s = run P [i] s := by
+  cases i <;> simp [withoutImm] at h <;> obtain ⟨rfl, rfl⟩ := h
+  · exact (C05_imm_consistent_store P _ _ s).symm
+  · exact (C05_imm_consistent_int P _ _ _ _ s).symm
+  · exact (C05_imm_consistent_float P _ _ _ _ s).symm
+  · exact (C05_imm_consistent_array_push P _ _ s).symm
+
+/-- **Constant pools beyond 16 bits.** Whatever the pool (any set of constants may fail to fit), the code
+    after `expand_immediates` has the same outcome as before it, in every state; labels are untouched. -/
+theorem C05_expand_immediates_sound (P : Prims H) (pool : Pool) (ls : List Line) :
+    ∀ (s : St H), run P (codeOf (expandImmediates pool ls)) s = run P (codeOf ls) s := by
+  induction ls with
+  | nil => intro s; rfl
+  | cons l rest ih =>
+    intro s
+    cases l with
+    | label l => simpa [expandImmediates, codeOf] using ih s
+    | instr i a =>
+      simp only [expandImmediates]
+      have hstep : ∀ (tl : List Instr), (∀ s, run P tl s = run P (codeOf rest) s) →
+          run P (i :: tl) s = run P (i :: codeOf rest) s := by
+        intro tl htl
+        simp only [run_cons]
+        congr 1; funext x; obtain ⟨s', c⟩ := x; cases c <;> simp [htl]
+      cases hw : withoutImm i with
+      | none => simpa [codeOf] using hstep _ ih
+      | some pp =>
+        obtain ⟨push, plain⟩ := pp
+        by_cases hf : fits pool push = true
+        · simpa [hf, codeOf] using hstep _ ih
+        · have hf' : fits pool push = false := by simpa using hf
+          simp only [hf', Bool.false_eq_true, if_false, codeOf]
+          have e1 : push :: plain :: codeOf (expandImmediates pool rest) =
+              [push, plain] ++ codeOf (expandImmediates pool rest) := rfl
+          have e2 : i :: codeOf rest = [i] ++ codeOf rest := rfl
+          rw [e1, e2, run_append, run_append, C05_without_imm_sound P i push plain hw s]
+          congr 1; funext x; obtain ⟨s', c⟩ := x; cases c <;> simp [ih]
+
+theorem C05_expand_immediates_labels (pool : Pool) (ls : List Line) :
+    labelsOf (expandImmediates pool ls) = labelsOf ls := by
+  induction ls with
+  | nil => rfl
+  | cons l rest ih =>
+    cases l with
+    | label l => simp [expandImmediates, labelsOf, ih]
+    | instr i a =>
+      simp only [expandImmediates]
+      cases hw : withoutImm i with
+      | none => simpa [labelsOf] using ih
+      | some pp =>
+        obtain ⟨push, plain⟩ := pp
+        by_cases hf : fits pool push = true <;> simp [hf, labelsOf, ih]
+
+/-- an immediate whose constant does not fit is really expanded, one that fits is kept -/
+example : expandImmediates ⟨fun n => n != 7, fun _ => true⟩
+    [.instr (.binIImm .add .top (.off 0) 7) ⟨0, 1, 0⟩, .instr (.binIImm .add .top (.off 0) 8) ⟨0, 2, 0⟩] =
+    [.instr (.pushInt 7) ⟨0, 1, 0⟩, .instr (.binI .add .top (.off 0) .top) ⟨0, 1, 0⟩,
+     .instr (.binIImm .add .top (.off 0) 8) ⟨0, 2, 0⟩] := by decide
+
+/-- D90: an offset outside the 15-bit register range is never fused (the three offset rules) -/
+example : peephole2 (.loadOffset 16384) (.binI .add .top .top .top) = .noMatch := by decide
+example : peephole2 (.loadOffset (-16385)) (.binIImm .add .top .top 1) = .noMatch := by decide
+example : peephole2 (.binI .add .top .top .top) (.storeOffset 16384) = .noMatch := by decide
+example : peephole2 (.loadOffset 16383) (.binI .add .top .top .top) =
+    .replace [.binI .add .top .top (.off 16383)] := by decide
 
 /-! Non-vacuity: a concrete environment agreeing with concrete primitives, and a program on which the
     optimizer fires rules of all three window sizes. -/
